@@ -802,7 +802,10 @@ package fzf
 // options or an error, never a crash, and never both nil.
 //@ func defaultTmuxOptions
 //@ ensures result != nil && fresh(result)
-//@ func parseSize trusted
+// parseSize ("N" or "N%"): never a panic, whatever the text - the empty string included
+//@ func parseSize
+//@ property C17
+//@ func atof trusted
 // maskActionContents blanks out the arguments of actions in a --bind specification so that the specification can be
 // split at commas and colons by *offset*: the masked text must be exactly as long, in bytes, as the original.
 //@ func maskActionContents
@@ -1189,7 +1192,7 @@ package fzf
 // Streaming filter mode (fzf -f QUERY without sorting): for every record read, the line is printed iff the
 // item satisfies the query, and what is printed is Item.AsString - the original line - not the display text.
 //@ func Run closure @"if chunkList.trans(&item, runes)"
-//@ property C07 C01 C05
+//@ property C07 C01 C05 C06
 // (every record is matched as a fresh item: no --nth memo of another line comes along)
 //@ assert @"if chunkList.trans(&item, runes)" item.transformed == nil && item.origText == nil
 //@ requires chunkList != nil && pattern != nil && opts != nil && chunkList.trans != nil && opts.Printer != nil
